@@ -211,8 +211,10 @@ def main(argv):
         R.undecided("ENGINE", "engine|crash", "checker crashed: %s\n%s" % (e, tb[-1500:]))
 
     known, fixed = load_known()
-    os.makedirs(os.path.join(VERIF, "evidence"), exist_ok=True)
-    os.makedirs(os.path.join(VERIF, "replay"), exist_ok=True)
+    ev_dir = os.environ.get("VERIF_EVIDENCE_DIR") or os.path.join(VERIF, "evidence")
+    rp_dir = os.path.join(os.path.dirname(ev_dir), "replay") if os.environ.get("VERIF_EVIDENCE_DIR") else os.path.join(VERIF, "replay")
+    os.makedirs(ev_dir, exist_ok=True)
+    os.makedirs(rp_dir, exist_ok=True)
     new_violations = []
     lines = []
     for v in R.violations:
@@ -228,7 +230,7 @@ def main(argv):
             lines.append("KNOWN-FINDING: property=%s key=%s %s" % (prop, v["key"], known[kk]))
             continue
         h = hashlib.sha256(v["key"].encode()).hexdigest()[:12]
-        path = os.path.join(VERIF, "replay", "%s-%s.json" % (prop, h))
+        path = os.path.join(rp_dir, "%s-%s.json" % (prop, h))
         with open(path, "w") as f:
             json.dump({"property": prop, "key": v["key"], "rule": v["rule"], "message": v["msg"], "where": v["where"],
                        "detail": v.get("detail"), "tier": tier,
@@ -273,7 +275,7 @@ def main(argv):
         "wall_s": round(time.time() - t0, 3),
         "violations": len(new_violations),
     }
-    with open(os.path.join(VERIF, "evidence", "%s.json" % prop), "w") as f:
+    with open(os.path.join(ev_dir, "%s.json" % prop), "w") as f:
         json.dump(ev, f, indent=1, default=str)
     print("%s tier=%s configs=%s entries=%d functions=%d obligations=%d discharged=%d wall=%.1fs" % (
         prop, tier, ",".join(R.analysed["configs"]), len(R.analysed["entries"]), len(R.analysed["functions"]), n_ob, n_ok,
